@@ -82,6 +82,12 @@ type c18ClientObs struct {
 	Trailer       http.Header
 }
 
+// A Read that keeps returning (0, nil) never ends for io.ReadAll-style callers: reported, not waited for.
+const (
+	c18MaxZeroReads = 2000
+	c18Livelock     = "verif: Read returned (0, nil) 2000 times in a row"
+)
+
 type c18Viol struct {
 	Sig    string
 	Detail string
@@ -163,8 +169,13 @@ func (h *c18Handler) run(w http.ResponseWriter, r *http.Request, ex *c18Exchange
 	o.ContentLength = r.ContentLength
 
 	buf := make([]byte, max(ex.ReadBuf, 1))
+	zeroReads := 0
 	read := func(limit int) { // limit < 0: until EOF / error
 		for !o.ReadDone && limit != 0 {
+			if zeroReads > c18MaxZeroReads {
+				o.ReadDone, o.ReadErr = true, c18Livelock
+				return
+			}
 			b := buf
 			if limit > 0 && limit < len(b) {
 				b = b[:limit]
@@ -173,6 +184,11 @@ func (h *c18Handler) run(w http.ResponseWriter, r *http.Request, ex *c18Exchange
 			o.Body = append(o.Body, b[:n]...)
 			if limit > 0 {
 				limit -= n
+			}
+			if n == 0 && err == nil {
+				zeroReads++
+			} else {
+				zeroReads = 0
 			}
 			if err != nil {
 				o.ReadDone = true
@@ -440,13 +456,19 @@ func c18DoExchange(ctx context.Context, rt http.RoundTripper, ex *c18Exchange) *
 	co.Status, co.Proto, co.ContentLength, co.Uncompressed = resp.StatusCode, resp.Proto, resp.ContentLength, resp.Uncompressed
 	co.Header = resp.Header.Clone()
 	buf := make([]byte, max(ex.ClientReadBuf, 1))
-	for {
+	for zeroReads := 0; ; {
 		n, err := resp.Body.Read(buf)
 		co.Body = append(co.Body, buf[:n]...)
 		if err != nil {
 			if err != io.EOF {
 				co.ReadErr = err.Error()
 			}
+			break
+		}
+		if n > 0 {
+			zeroReads = 0
+		} else if zeroReads++; zeroReads > c18MaxZeroReads {
+			co.ReadErr = c18Livelock
 			break
 		}
 	}
@@ -474,9 +496,16 @@ func c18Compare(ex *c18Exchange, disableCompression bool, so *c18ServerObs, co *
 		}
 	}
 
+	if so.ReadErr == c18Livelock {
+		v("server|request-body-read-never-ends", "after %d bytes Body.Read returned (0, nil) %d times in a row (declared Content-Length %d, body %d bytes)", len(so.Body), c18MaxZeroReads, ex.ReqBody+ex.ReqCLDelta, ex.ReqBody)
+	}
+	if co.ReadErr == c18Livelock {
+		v("client|response-body-read-never-ends", "after %d bytes Body.Read returned (0, nil) %d times in a row", len(co.Body), c18MaxZeroReads)
+	}
 	// ---- what the handler saw
 	if so.Panic != "" {
-		v("server|panic-in-handler-goroutine", "%s", so.Panic)
+		tail, _ := c18ClassifyPanic("panic: " + so.Panic)
+		v("server|"+tail, "recovered in the handler goroutine: %s", so.Panic)
 	}
 	switch {
 	case calls == 0:
